@@ -29,7 +29,7 @@ ENGINE = 'E2 bfs'
 LEVEL = 'model_checking'
 LEVEL_TEXT = (
     'Explicit-state BFS to the fixed point of the lock-set state space: every LOCK/UNLOCK of every '
-    'range 1<=s<=e<=R (R=4 quick, 6 thorough) and of the whole file, every GET/PUT of records 1..R+1, '
+    'range 1<=s<=e<=R (R=5 quick, 5-6 thorough) and of the whole file, every GET/PUT of records 1..R+1, '
     'CLOSE and re-OPEN, through 2-3 file numbers on one file with at most CAP ranges held per number, '
     'is executed on the real interpreter (BASIC statements) and on the real Locks object and compared '
     'with an interval-set reference model in every reachable state; so every ordered pair of ranges '
@@ -667,17 +667,17 @@ def work_spelling(shard):
 def legs(ctx):
     out = []
     if ctx.quick:
-        cfgs = [(('basic', (1, 2), 4, 2, b'', 4), 40)]
+        cfgs = [(('basic', (1, 2), 5, 2, b'', 4), 40)]
         dcfgs = [(('direct', (1, 2, 3), 5, 2, b''), 60)]
-        bound_b = '2 numbers, ranges 1<=s<=e<=4 + whole file (11), <=2 held per number, records 1..5'
+        bound_b = '2 numbers, ranges 1<=s<=e<=5 + whole file (16), <=2 held per number, records 1..6'
         bound_d = '3 numbers, ranges 1<=s<=e<=5 + whole file (16), <=2 held per number'
     else:
-        cfgs = [(('basic', (1, 2, 3), 4, 2, b'', 4), 60),
+        cfgs = [(('basic', (1, 2, 3), 5, 2, b'', 4), 60),
                 (('basic', (1, 2), 6, 2, b'', 4), 60),
                 (('basic', (1, 2), 5, 2, b'SHARED ', 2), 60)]
         dcfgs = [(('direct', (1, 2, 3), 6, 3, b''), 80),
                  (('direct', (1, 2, 3), 6, 2, b'SHARED'), 80)]
-        bound_b = ('3 numbers, ranges 1<=s<=e<=4 + whole file (11), <=2 held per number, records 1..5; '
+        bound_b = ('3 numbers, ranges 1<=s<=e<=5 + whole file (16), <=2 held per number, records 1..6; '
                    '2 numbers, ranges 1<=s<=e<=6 + whole file (22), <=2 held, records 1..7; '
                    '2 numbers opened SHARED, R=5')
         bound_d = '3 numbers, ranges 1<=s<=e<=6 + whole file (22), <=3 held per number; and SHARED, <=2'
